@@ -1,7 +1,7 @@
 """C11 — compiled schema matches what the source describes (checker-side matching obligations + compiler dependencies)."""
 import ast
 
-from .common import ctx, returns, calls_in_ctx, site, bound_args
+from .common import ctx, returns, calls_in_ctx, site, bound_args, full_text, bulk_appends
 from .lvs import merge_key_rule, match_rules, CK, CP, last_component_guarded
 from ..flow import callee_attr
 from ..loader import AnalysisError, norm
@@ -101,7 +101,7 @@ def run(R):
                 probs.append(f'constraint set is `{kw.get("cons_set")}`: constraints of the referring or the referred rule are lost')
             if kw.get('sign_cons') != f'{a}.sign_cons':
                 probs.append(f'signing constraints are `{kw.get("sign_cons")}`')
-            if kw.get('id') != 'rule.id.id':
+            if kw.get('id') != 'rule.id.id' and not any(k_.arg == 'id' and full_text(rr, k_.value) == 'rule.id.id' for k_ in lc.elt.keywords):
                 probs.append(f'rule id is `{kw.get("id")}`')
         if any(g.ifs for g in lc.generators):
             probs.append('alternatives are filtered')
@@ -114,12 +114,14 @@ def run(R):
     # one chain per alternative: a comprehension or an explicit loop over rule.comp_cons that builds RuleChain(cons_set=<the alternative>)
     alt = []
     for x in ast.walk(rr.f.node):
-        if isinstance(x, ast.ListComp) and len(x.generators) == 1 and ast.unparse(x.generators[0].iter) == 'rule.comp_cons' and not x.generators[0].ifs:
+        if isinstance(x, ast.ListComp) and len(x.generators) == 1 and ast.unparse(x.generators[0].iter) in ('rule.comp_cons', 'rule.comp_cons or [[]]') \
+                and not x.generators[0].ifs:
             alt.append((x, x.generators[0].target, x.elt))
-        if isinstance(x, ast.For) and ast.unparse(x.iter) == 'rule.comp_cons' and len(x.body) == 1 and isinstance(x.body[0], ast.Expr) \
+        if isinstance(x, ast.For) and ast.unparse(x.iter) in ('rule.comp_cons', 'rule.comp_cons or [[]]') and len(x.body) == 1 and isinstance(x.body[0], ast.Expr) \
                 and isinstance(x.body[0].value, ast.Call) and callee_attr(x.body[0].value) == 'append' and x.body[0].value.args:
             alt.append((x, x.target, x.body[0].value.args[0]))
-    acc = [n for n in rr.cfg.nodes if n.kind == 'stmt' and isinstance(n.ast, ast.AugAssign) and ast.unparse(n.ast.target) == 'self.rep_rules[rule.id.id]']
+    acc = [n for n in rr.cfg.nodes if n.kind == 'stmt' and isinstance(n.ast, ast.AugAssign) and full_text(rr, n.ast.target) == 'self.rep_rules[rule.id.id]'] + \
+          [n for (n, rv, it) in bulk_appends(rr) if full_text(rr, rv) in ('self.rep_rules.setdefault(rule.id.id, [])', 'self.rep_rules[rule.id.id]')]
     if len(alt) == 1 and isinstance(alt[0][2], ast.Call) and ast.unparse(bound_args(P, rr, alt[0][2]).get('cons_set', ast.Constant(None))) == ast.unparse(alt[0][1]) \
             and len(acc) == 1:
         R.ok('C11.PRV.1', inst, site(rr, alt[0][0]))
